@@ -353,13 +353,15 @@ type Obs struct {
 	Arm       string // per cleartext read A/U, then "|" and the summary of the reads below TLS
 	Srv       string
 	LastVerb  string
-	Positions int        // number of script decisions the server consumed (command positions incl. AUTH steps)
-	Ended     bool       // the server side ended without being forced (the client closed, or the server closed itself)
-	Hung      bool       // the watchdog had to tear the case down
-	HungCall  string     // the public call that did not return within the bound
-	Arms      int        // SetDeadline calls on the tracked connection (arming points passed)
-	Spent     int        // deadlines waited out: timeouts of a read made under a deadline that had not expired before
-	Calls     []CallTime // wall time of every public call
+	Positions int           // number of script decisions the server consumed (command positions incl. AUTH steps)
+	Ended     bool          // the server side ended without being forced (the client closed, or the server closed itself)
+	Hung      bool          // the watchdog had to tear the case down
+	HungCall  string        // the public call that did not return within the bound
+	Conn      *smtpx.Conn   // kind dialk: the connection left open for the next call
+	Server    *smtpx.Server // kind dialk: its server
+	Arms      int           // SetDeadline calls on the tracked connection (arming points passed)
+	Spent     int           // deadlines waited out: timeouts of a read made under a deadline that had not expired before
+	Calls     []CallTime    // wall time of every public call
 	Elapsed   time.Duration
 	Clear     []byte // mem: bytes the client wrote before its first TLS record; tcp: first raw bytes the server read
 	AllTLS    bool   // tcp: the raw byte stream starts with a TLS handshake record
@@ -727,7 +729,7 @@ func RunWith(c Case, p *PKI, timeout time.Duration, build func(transport ...mail
 	}
 	var oc outcome
 	switch c.Kind {
-	case "dial":
+	case "dial", "dialk":
 		if err, ok := call("DialWithContext", func() error { return client.DialWithContext(ctx) }); ok {
 			oc.results, oc.first = []string{Classify(err)}, err
 		}
@@ -855,8 +857,11 @@ func RunWith(c Case, p *PKI, timeout time.Duration, build func(transport ...mail
 	if c.Net() {
 		grace = 1500 * time.Millisecond
 	}
-	stillOpen := c.Kind == "dial" && len(oc.results) == 1 && oc.results[0] == "ok"
-	if stillOpen {
+	stillOpen := (c.Kind == "dial" || c.Kind == "dialk") && len(oc.results) == 1 && oc.results[0] == "ok"
+	if stillOpen && c.Kind == "dialk" && memClient != nil {
+		// the connection is left open for the next call on the same Client: the caller tears it down (Conn, Server)
+		o.Conn, o.Server = memClient, srv
+	} else if stillOpen {
 		if c.Net() {
 			select {
 			case <-srv.Done:
